@@ -184,6 +184,8 @@ def spec_eval(expr, context, dims):
             for v in vals[1:]:
                 r = r * v
             return r
+        if op in ("m_mult", "kron", "expm") and not all(np.ndim(v) == 2 for v in vals):
+            raise TypeError("matrix command applied to a non-matrix (ill-typed expression)")
         if op == "m_mult":
             r = vals[0]
             for v in vals[1:]:
@@ -204,6 +206,65 @@ def spec_eval(expr, context, dims):
     if hasattr(expr, "shape"):
         return np.array(expr, dtype=complex)
     return expr
+
+
+def auto_dimension_clauses(operation, tn, tidx, rho0, dims0, dims1, rho1, ren) -> List[Clause]:
+    """C10: the dimension chosen automatically before an operation is large enough: the result equals the ideal
+    (cut-off + 40) result restricted to the chosen space - exactly for ladder / phase / beam-splitter operations, and up
+    to the documented truncation threshold (1e-6 of the probability mass) for displacement, squeezing, expressions."""
+    fam, nm = op_family(operation), operation._operation_type.name
+    exact = (fam == "FockOperationType" and nm in ("Creation", "Annihilation", "PhaseShift", "Identity")) or \
+            (fam == "CompositeOperationType" and nm == "NonPolarizingBeamSplitter")
+    approx = fam == "FockOperationType" and nm in ("Displace", "Squeeze", "Expresion")
+    if not (exact or approx):
+        return []
+    # the operator acts on the targets only, so the comparison is made on the reduced state of the targets
+    rho0 = S.spec_ptrace(rho0, dims0, tidx)
+    rho1 = S.spec_ptrace(rho1, dims1, tidx)
+    dims0 = [dims0[i] for i in tidx]
+    dims1 = [dims1[i] for i in tidx]
+    tidx = list(range(len(tidx)))
+    big = list(dims1)
+    for i in tidx:
+        big[i] = max(dims1[i], dims0[i]) + 40
+    # only Fock targets are enlarged (polarization / custom targets keep their dimension)
+    for i in tidx:
+        if not tn[tidx.index(i)].endswith(".f"):
+            big[i] = dims1[i]
+    try:
+        O, _ = spec_operator(operation, [big[i] for i in tidx])
+        src = W.pad_rho(rho0, dims0, [max(a, b) for a, b in zip(dims0, big)])
+        if src is None or O is None:
+            return []
+        ideal = S.spec_apply(src, big, tidx, O, False)
+    except Exception as ex:
+        return [Clause("ENGINE", "ideal-result-computable", False, f"{type(ex).__name__}: {ex}")]
+    n = len(big)
+    t = ideal.reshape(big + big)
+    sl = tuple(slice(0, d) for d in dims1) * 2
+    inside = t[sl].reshape(rho1.shape)
+    total = np.trace(ideal).real
+    mass = np.trace(inside).real / total if total > 1e-15 else 0.0
+    cl = []
+    if exact:
+        cl.append(Clause("C10", "chosen-dimension-holds-the-whole-result", mass > 1 - 1e-9,
+                         f"{nm} on {tn}: dims {dims0}->{dims1} keep only {mass:.9f} of the ideal result"))
+        tol = 1e-8
+    else:
+        cl.append(Clause("C10", "chosen-dimension-holds-most-of-the-result", mass > 0.8,
+                         f"{nm} on {tn}: dims {dims0}->{dims1} keep only {mass:.6f} of the ideal result"))
+        cl.append(Clause("C10", "chosen-dimension-holds-the-result-up-to-the-threshold", mass > 1 - 1e-5,
+                         f"{nm} on {tn}: dims {dims0}->{dims1} keep only {mass:.9f} of the ideal result (documented threshold 1-1e-6)"))
+        tol = 5e-3
+    ref = inside / (np.trace(inside).real if ren or approx else total) if np.trace(inside).real > 1e-15 else inside
+    got = rho1 / np.trace(rho1).real if (approx and np.trace(rho1).real > 1e-15) else rho1
+    d = float(np.max(np.abs(ref - got)))
+    if approx:
+        cl.append(Clause("C10", "result-roughly-equals-the-ideal-result", d <= 0.25,
+                         f"{nm} on {tn}: max deviation from the ideal result {d:.3g} (dims {dims0}->{dims1})"))
+    cl.append(Clause("C10", "result-equals-the-ideal-infinite-dimensional-result", d <= tol,
+                     f"{nm} on {tn}: max deviation from the ideal result {d:.3g} (dims {dims0}->{dims1})"))
+    return cl
 
 
 # ------------------------------------------------------------------------------------------------ apply_operation
@@ -257,6 +318,7 @@ class ApplyOperation(Contract):
             return cl
         cl.append(state_clause(prop, "joint-state-is-(O x I) rho (O x I)^dagger", exp, rho1,
                                extra=f"[{ghost['op']._operation_type.name} on {tn}, dims {dims0}->{dims1}]"))
+        cl += auto_dimension_clauses(ghost["op"], tn, tidx, rho0, dims0, dims1, rho1, ren)
         for t, i in zip(tn, tidx):
             b = new.block_of(t)
             ax = b.dims[b.members.index(t)]
